@@ -251,7 +251,17 @@ def run(ctx):
             rec.sample({"nodes": gen.count_nodes(spec), "first_section": enc(no_ids(spec["sections"][0]))
                         if gen.count_nodes(spec["sections"][0]) < 6 else "(large)"})
         run_case(case, ctx, sdir)
-        run_foreign({"spec": enc(foreign_safe(spec)), "i": i}, ctx)
+        if True:
+            # the foreign tool describes the document in its normal form (what the API stores: no
+            # sub-second part, naive times), so the model of the built document is emitted
+            try:
+                with warnings.catch_warnings():
+                    warnings.simplefilter("ignore")
+                    normal = model.model_of(gen.build_doc(spec))
+            except Exception:
+                normal = None
+            if normal is not None:
+                run_foreign({"spec": enc(foreign_safe(normal)), "i": i}, ctx)
         if ctx.time_left() < 0:
             rec.extra["stopped_early_at_doc"] = i
             break
